@@ -3,6 +3,22 @@
 import json, subprocess, sys
 
 CLAIMED = {
+ "C08": ("dominating-guard rules, interval arithmetic over go/constant, wire-grammar symmetry, frozen dispatch tables",
+         "Static necessary conditions of exact read-back and refusal: Validate dominates every typed encode of the same value; the INT arm accepts exactly [MinInt32, MaxInt32] (interval computed from operators and constants); every store of external bytes into a cell is dominated by the row-size check (len <= maxValueSize) with the length co-assigned; row and schema codecs are symmetric per type; literal tokens convert base-10 / verbatim; Decode always fills a fresh map (NULL columns are skipped, not cleared); SQL types map to the same storage types along parser, CREATE TABLE and catalog.",
+         "Does not decide byte-exactness through the vendored scanner's escapes, nor equality over all values; 32-bit int width of strconv.Atoi is only compiled (GOARCH=386) in the thorough tier.", "DESIGN.md §4 C08"),
+ "C14": ("dominance of validation over mutation + call-cone sentinel reachability for statement loops",
+         "Static necessary conditions of failing statements changing nothing: per row, lookup, column-count test and Encode (type/range validation) dominate the tree insert; the size check dominates every cell store; nothing is marked dirty on updateCell's error edge; CREATE TABLE's duplicate test dominates allocation and catalog inserts; a per-row statement loop whose mutator can return a validation sentinel after an earlier iteration mutated is reported (two recorded known findings, D9a/b).",
+         "State equality is not decided; I/O errors are outside the property. The multi-row INSERT/UPDATE findings are genuine defects recorded in known_findings.jsonl.", "DESIGN.md §4 C14"),
+ "C15": ("edge-dominance and paired-update rules on the LRU's control-flow graph",
+         "Static necessary conditions of a correct LRU: the victim is removed only through the not-dirty edge of a live isDirty() on that element, Remove is paired with delete of the victim's key and PushFront with registration under the inserted key, every hit path promotes and set refreshes the stored page, the victim search runs from Back via Prev, PushFront on a full cache only after an eviction, refusal only when the search ran off the list, and the refusal is surfaced as ErrLRUCacheFull by every caller.",
+         "Bound to the list+map representation; model equivalence over operation sequences is not decided.", "DESIGN.md §4 C15"),
+ "C16": ("who-may-read/who-may-touch confinement + the eviction, dirty-marking and flush rules",
+         "Static necessary conditions of cache-size independence: the data file is read only in fetch on the miss edge of LRUCache.get and the page is registered before it is returned; the cache representation is touched only by LRUCache methods and the flush iteration; pages become clean only after their own successful write; only clean pages are evicted; every page changed by an insert is marked dirty and cell bytes carry their length.",
+         "The quantifier over capacities is not decided (capacity is a compile-time literal); pages mutated through a pointer held across an eviction need the runtime premise that the dirty set fits the cache.", "DESIGN.md §4 C16"),
+ "C17": ("value-agreement of sibling path builders + typestate rules on the USE arm (go/cfg dominance on the OpenRelation error edge)",
+         "Static necessary conditions of database isolation: the three path builders normalise the name identically (ToLower) with distinct file constants; in USE the session fields are stored only after OpenRelation succeeded, the previous service is closed after the new one opened on every replacing path, re-selection is detected case-insensitively; existence tests dominate file creation with the right polarity; CreateDB closes its temporary flushing service.",
+         "Contents per database over histories and SHOW DATABASES output are not decided.", "DESIGN.md §4 C17"),
+
  "C01": ("transfer-completeness, dominating-guard and must-pass-through rules over go/cfg + source call graph",
          "Static necessary conditions of table-content integrity on every path: the tombstone survives every cell copy (split), every row handed to a scan callback or returned by lookup is dominated by the not-deleted edge, the row-id counter is confined and advanced on every success path, a root move is detected after every BTree.insert and recorded in the catalog / logged, both split paths install a new root the same way, and every page changed by an insert is marked dirty before the function returns.",
          "Does not decide that scans visit every live row exactly once for arbitrary split patterns nor equality with a model over histories; assumes ascending keys.", "DESIGN.md §4 C01"),
